@@ -339,6 +339,8 @@ func runC01(c *Ctx) {
 			{name: "G2-release-success", kind: kind, traj: []int{1}, held: []int{1, 0, 0}, progs: []string{"s", "A", "A"}},
 			{name: "G2-release-ignore", kind: kind, traj: []int{1}, held: []int{1, 0, 0}, progs: []string{"i", "A", "A"}},
 			{name: "G2-release-dropped", kind: kind, traj: []int{1}, held: []int{1, 0, 0}, progs: []string{"d", "A", "A"}},
+			{name: "G2-release-with-room", kind: kind, traj: []int{2}, held: []int{1, 0}, progs: []string{"s", "A"}},
+			{name: "G2-release-with-room-3", kind: kind, traj: []int{3}, held: []int{1, 1, 0}, progs: []string{"i", "d", "AA"}},
 			{name: "G3-window-lower", kind: kind, traj: []int{2, 1}, prefill: 10, held: []int{1, 1, 0}, progs: []string{"s", "s", "A"}},
 			{name: "G3-window-raise", kind: kind, traj: []int{1, 2}, prefill: 10, held: []int{1, 0, 0}, progs: []string{"s", "A", "A"}},
 			{name: "G3-window-zero", kind: kind, traj: []int{2, 0}, prefill: 10, held: []int{1, 1, 0}, progs: []string{"d", "s", "AA"}},
